@@ -6,6 +6,7 @@ TECH = "contract-based deductive verification: Verus (Z3) on functions sliced me
 PROPERTIES = {
     'C01': dict(
         units=['u_map', 'u_index', 'u_cascade', 'u_dataset', 'u_sub', 'u_posidx'],
+        finders=['find_store_consistency'],
         level_text="Deductive proof (Verus/Z3), for all inputs and without bound, that (1) every reverse-index primitive (RelationMap, RelationBTreeMap, TripleRelationMap, ExclusiveRelationMap: insert/extend/remove/remove_all/remove_second/get) changes exactly the addressed row and nothing else; (2) StoreCallbacks<Annotation>::inserted, verified whole, enters a new annotation into each of the seven indices exactly once per matching leaf of its target, in order, under the right keys, for every target selector and every index configuration, and changes nothing else; (3) the un-indexing part of StoreCallbacks<Annotation>::preremove removes exactly the pairs (target, annotation) from exactly the right index; (4) the dataset callbacks keep key_data_map equal to the keys of the live data; (5) the range compression of subselectors loses no target; (6) position-index insertion enters a text selection under its begin and its end. The claim is partial and says so.",
         level_note="Trusted: Vec::resize_with / Option::copied std specs, vx_position (Iterator::position semantics, structural == on handles), lawful Ord on handle types (obeys_cmp precondition), 64-bit usize, BTreeMap entry API model, SelectorIter (the sequence of leafs of a complex target is the uninterpreted walk(target); a non-complex selector yields itself). Not decided: the target collection at the head of preremove (high-level API iterators), protect_text, map reindex, totalcount.",
         design_ref='DESIGN.md §7.1',
@@ -14,6 +15,7 @@ PROPERTIES = {
     ),
     'C13': dict(
         units=['u_rel'],
+        finders=['find_rel_pair'],
         level_text="Deductive proof (Verus/Z3) that the four relation tests (TextSelection::test/test_set, TextSelectionSet::test/test_set) return exactly the interval-arithmetic relation of DESIGN.md appendix A for every operator value and every pair of ranges / sets, never panic or underflow, and that toggle_negate/toggle_all/with_limit change exactly one modifier; converse, symmetry, implication, complement and singleton laws are lemmas over that specification. TextSelection::intersection returns Some exactly when Overlaps holds, with the exact overlap part, and leaves nothing of a side exactly when that side is embedded; the Ord impl of TextSelection is the canonical order (begin, then end); TextSelectionSet::add and sort establish and keep the sorted-flag invariant the set tests take as precondition.",
         level_note="Trusted: whitespace-gap scan is an uninterpreted predicate (vx_gap_is_whitespace), derived PartialEq on TextSelection is structural, TextSelectionSet::iter is a plain wrapper of data.iter() (anchor-checked text), binary_search / sort_unstable over the canonical order and != on std's Ordering are outlined, 64-bit usize. Requires well-formed ranges (begin <= end) and the sorted-flag invariant of TextSelectionSet.",
         design_ref='DESIGN.md §7.11 and appendix A',
@@ -22,6 +24,7 @@ PROPERTIES = {
     ),
     'C04': dict(
         units=['u_off'],
+        finders=['find_offset_accept'],
         level_text="Deductive proof (Verus/Z3), for every cursor pair and every text length, that TextResource::textselection_by_offset(_unchecked) and TextSelection::textselection_by_offset accept an offset exactly when it denotes 0 <= begin <= end <= length and then return exactly that range; that beginaligned_cursor rejects positive end-aligned cursors; that relative_offset reports, in all four alignment modes, a well-formed offset (end-aligned cursors <= 0) that re-resolves to the same absolute range; no arithmetic overflow or panic in any of these.",
         level_note="Trusted: isize::abs/unsigned_abs specs, 64-bit usize, error-message text (vx_msg). Preconditions: ranges are well formed and text positions fit isize (Rust allocation limit). Not decided: that the annotation's text is precisely those codepoints (needs utf8byte, see C12) and Selector::offset_with_mode's store lookups.",
         design_ref='DESIGN.md §7.4',
@@ -30,6 +33,7 @@ PROPERTIES = {
     ),
     'C03': dict(
         units=['u_store', 'u_reindex'],
+        finders=['find_reindex_ids', 'find_store_consistency'],
         kani=[dict(harness='k_temp_id', function='resolve_temp_id (src/store.rs)', file='src/store.rs', bound='every valid UTF-8 string of at most 4 bytes')],
         level_text="Deductive proof (Verus/Z3) of the generic store layer, once for every store type: StoreFor::resolve_id returns exactly the handle the id map holds for that string, or the number of a temporary id of the right kind that fits the handle type; get/has/get_mut succeed exactly for live items; remove tombstones the item, drops its id from the id map and preserves the id-map representation invariant (every id points at the live item carrying it and vice versa); insert (C14) either fails without changing the store or appends exactly one item. No lookup panics, whatever the string. Compaction: Handle::reindex shifts a handle by the deltas of the gaps recorded at or before it; ReindexStore::gaps records, for every live position, minus the number of tombstones before it; ReindexStore::reindex moves every live item, in order, to exactly the position Handle::reindex computes from its old handle, where it knows its new handle and keeps id and content, and nothing else is live; a lemma over these contracts shows the id-map invariant is preserved when every stored handle is shifted the same way (IdMap::reindex), i.e. no identifier is redirected to another item by compaction.",
         level_note="Trusted: HashMap<String,H> modelled as a map (VxStrMap), str::starts_with, Option::map(to_string), resolve_temp_id's contract (bounded Kani stand-in), callback contracts of StoreCallbacks (proved for the dataset implementations in u_dataset, assumed for AnnotationStore), 64-bit usize. Compaction: the values_mut loop of IdMap::reindex (one call of the verified Handle::reindex per value) and gaps.iter().map().sum() are outlined; AnnotationStore::reindex itself (which calls gaps / reindex / IdMap::reindex with the same gap list per store) is read, not verified; it does not remap annotation targets nor four of the reverse indices (recorded in DESIGN.md section 8 with a replay).",
@@ -39,6 +43,7 @@ PROPERTIES = {
     ),
     'C10': dict(
         units=['u_dataset'],
+        finders=['find_store_consistency'],
         level_text="Deductive proof (Verus/Z3) over the real AnnotationDataSet code that (1) the key -> data reverse index is exact at all times: the StoreCallbacks implementations for AnnotationData and DataKey (inserted / preremove) re-establish 'row k lists exactly the live data with key k, each once' around every insertion and removal, removing a key clears only its own row, and the generic StoreFor::insert/remove (proved once, instantiated here on the real accessors) pass the callbacks' effect on to their callers and keep each key and each id unique; (2) data_by_value(key, value) returns a live item with that key and an equal value, and returns None only if no live item carries that pair; (3) the de-duplicating tail of insert_data: for an id-less insertion with safety on, if a live item with the same (key, value) exists it is returned and the dataset is unchanged, otherwise exactly one item with that key and value is appended, and the index is exact again afterwards.",
         level_note="Trusted: DataValue equality is an uninterpreted relation (veq: the derived ==); random id generation (generate_id); the changed-flag write (mark_changed) is dropped; HashMap<String,H> model; vx_position. insert_data is verified as a region: the BuildItem resolution at its head (lookup of the id, key creation) is not verified and enters as preconditions (the id does not resolve, the key is live). Not decided: DataValue::test comparison semantics, find_data iterators, AnnotationStore::insert_data (implicit dataset creation).",
         design_ref='DESIGN.md §7.9',
@@ -47,6 +52,7 @@ PROPERTIES = {
     ),
     'C07': dict(
         units=['u_seg'],
+        finders=['find_segmentation'],
         level_text="Narrow claim: deductive proof (Verus/Z3) that SegmentationIter::next yields consecutive, non-empty, non-overlapping pieces that stay inside the segmented range, cuts only at positions where a known selection begins or ends (never at an empty milestone entry) or at the end of the range, skips no such boundary, and terminates. The rest of C07 (exact / case-insensitive / regex search, split, trim) compares against str and regex library behaviour on UTF-8 bytes, which no contract within reach can express, and is NOT claimed.",
         level_note="Trusted: the positions iterator yields the keys of the position index in strictly increasing order; TextResource::position is a plain index lookup; textselection(&offset) succeeds exactly for accepted offsets (proved for the underlying functions in u_off).",
         design_ref='DESIGN.md §7.6',
@@ -55,6 +61,7 @@ PROPERTIES = {
     ),
     'C02': dict(
         units=['u_store', 'u_cascade', 'u_map', 'u_dataset', 'u_ann', 'u_ann_closure'],
+        finders=['find_store_consistency'],
         level_text="Deductive proof (Verus/Z3): the generic StoreFor::remove succeeds whenever the item exists (and its callback succeeds), leaves a tombstone, drops the item's id and only ever turns other slots into tombstones; the index half of StoreCallbacks<Annotation>::preremove (cut out as a region) removes the removed annotation from exactly the rows of exactly the reverse index that its targets and data occupy, leaving every other row untouched; the index primitives used by the cascade (remove / remove_all / remove_second) and the dataset callbacks are exact. The transitive set of dependents that is removed is defined by the un-contracted part of preremove and is NOT decided.",
         level_note="Trusted: the collection of an annotation's targets through the high-level iterator API at the start of preremove(Annotation) (outside the region), preremove for TextResource / AnnotationDataSet, remove_data/remove_key orchestration, DELETE query routing; HashMap model; vx_position; lawful Ord on handles.",
         design_ref='DESIGN.md §7.2',
@@ -63,6 +70,7 @@ PROPERTIES = {
     ),
     'C06': dict(
         units=['u_find', 'u_tsiter', 'u_rel', 'u_posidx'],
+        finders=['find_related_text', 'find_index_walk'],
         level_text="Deductive proof (Verus/Z3) of the range choice of the related-text search: for every operator/modifier combination, every non-empty reference set and every well-formed candidate inside the text, if the relation test (proved equal to the appendix-A specification in u_rel) holds for the candidate then FindTextSelectionsIter::init_textseliters has chosen an index range and direction that visits it (forward by begin / backward by end), and no candidate is visited by two ranges; TextResource::iter covers every selection including one that begins at the very end of the text. The filter/buffer logic (walk region of next_textselection, next_iterator, next) is proved to return, as a multiset, exactly the handles of the walked selections for which the test holds and which are not members of the reference set - nothing lost, nothing twice - and to terminate.",
         level_note="TextSelectionIter::next / next_back (the walk over the position index) are verified in u_tsiter against the sequence of handles still to be yielded (rest of the current per-position list, then the lists of the remaining entries from the front / from the back); trusted there: btree_map::Range is a double-ended iterator over the entries of the range in key order, slice iterators obey vstd's iterator laws. Still assumed in u_find: that a fresh TextResource::range(b,e) holds exactly the entries with b <= position < e (BTreeMap::range) so that each indexed selection is visited once; that every inserted selection IS indexed under both its begin and its end is proved (u_posidx, closures of the entry API lifted, entry API trusted); the five glue lines of next_textselection (Equals shortcut via known_textselection, lazy call of init_textseliters) are not verified - its walk region and next() are; whitespace-gap scan uninterpreted.",
         design_ref='DESIGN.md §7.5',
@@ -71,6 +79,7 @@ PROPERTIES = {
     ),
     'C08': dict(
         units=['u_iter', 'u_handles'],
+        finders=['find_limit_slice', 'find_handles_setops'],
         level_text="Narrow claim, two parts. (1) LIMIT: deductive proof (Verus/Z3), for any lawful inner iterator and any begin/end (positive, negative, zero, mixed), that LimitIter::next yields exactly the elements of the LIMIT slice of the unlimited results, in order: a ghost function future() of the iterator state is proved to equal slice_spec(all results, begin, end) for a fresh iterator, and every call returns its head and advances it (or returns None exactly when it is empty); no overflow, termination. (2) The handle collections that carry unions and constraint intersections (Handles, instantiated at one handle type): contains / position / add / union / intersection / contains_subset / sort / from_iter with their sorted fast paths against set semantics - union's members are exactly those of both operands and it adds no duplicates, intersection keeps exactly the common members - and against the representation invariant that the sorted flag is only set on a sorted array (every binary search has a sorted slice as a proved precondition). Constraint-order independence, sub-queries, STAMQL = builder = iterator API and ADD/DELETE equivalence are 2600 lines of boxed iterator plumbing over the high-level API and are NOT claimed.",
         level_note="Trusted: vstd's prophetic iterator laws for the inner iterator (obeys_prophetic_iter_laws, finite: decrease() is Some), isize::abs/unsigned_abs specs, 64-bit usize; the range end of one for-loop is hoisted into a local (R-hoist). Handles: Cow<[H]> treated as Vec<H> (R-cow), T::FullHandleType instantiated at AnnotationHandle (R-instantiate); std slice operations binary_search (on a sorted slice), contains, sort_unstable, derived PartialOrd, zip/all, clone are outlined with their std meaning; Vec::retain with the stateful closure of intersection is trusted to call the (lifted and verified) closure once per element in order.",
         design_ref='DESIGN.md §7.7',
@@ -79,6 +88,7 @@ PROPERTIES = {
     ),
     'C12': dict(
         units=['u_utf8', 'u_subtext', 'u_posidx'],
+        finders=['find_utf8'],
         level_text="Conditional claim: deductive proof (Verus/Z3) over the real TextResource::utf8byte and utf8byte_to_charpos, with UTF-8 decoding abstracted into a trusted codepoint<->byte map of the text: for EVERY content of the position index and byte2charmap that satisfies the index invariant (each entry carries the true byte offset of its position), utf8byte(p) returns exactly the byte offset of p for 0 <= p <= length and an error beyond, and utf8byte_to_charpos(b) returns exactly the position whose offset is b and an error for any other byte (inside a character, beyond the text). Since the postconditions mention only the text, the answers cannot depend on milestone interval, shrink-to-fit or existing annotations; create_milestones and the index insertion callback (u_posidx) are proved to preserve the invariant. Round trip = identity follows from the two contracts.",
         level_note="Trusted: the abstract text model (char_indices / str::len / &text[b..] slicing at a boundary, as external_body helpers whose bodies are the original expressions), BTreeMap::range(..).next_back() (vx_last_below). Eight declared R-outline firings in two 45-line functions; the loop headers over char_indices().enumerate() are rewritten to loops over the trusted pair list. The relative variants on ResultTextSelection (src/api/text.rs) are proved to translate coordinates exactly (u_subtext) over the resource contracts; the identical impl for ResultItem<TextSelection> and subslice_utf8_offset (pointer arithmetic) are trusted.",
         design_ref='DESIGN.md §7.10',
